@@ -424,6 +424,9 @@ class Ctx:
         }
         os.makedirs(os.path.join(VERIF, "evidence"), exist_ok=True)
         evname = "%s.json" % self.prop_id if not self.replay else "%s.replay.json" % self.prop_id
+        if os.path.realpath(REPO) != "/repo":
+            # a development run against a scratch copy (VERIF_REPO): never overwrite the registered evidence
+            evname = "%s.scratch.json" % self.prop_id
         with open(os.path.join(VERIF, "evidence", evname), "w") as f:
             json.dump(ev, f, indent=1, default=str)
         self.cleanup()
